@@ -86,6 +86,7 @@ type tr struct {
 	nclos     int
 	mapVal    *mapValBind // value variable of a map range being rewritten to a key-list range
 	depth     int         // nesting of on-demand helper translation
+	recvName  string      // the receiver's name in the source (call-table keys are written with `k`)
 	extraFree []string    // identifiers of the ranged map expression (free in the rewritten loop)
 }
 
@@ -211,6 +212,9 @@ func (t *tr) expr(e ast.Expr, en env) V {
 			return V{e.Name, "Bool"}
 		}
 		if v, ok := en.m[e.Name]; ok {
+			if v.t == "Poison" {
+				return t.bad("use of the untranslatable variable %s", e.Name)
+			}
 			return V{v.lean, v.t}
 		}
 		if v, ok := t.u.Idents[e.Name]; ok {
@@ -313,6 +317,14 @@ func (t *tr) constant(name string, c V) V {
 	return t.bad("numeric constant %s not found in the source", name)
 }
 
+func (t *tr) typeName(goType string) (LT, bool) {
+	if v, ok := t.u.TypeNames[goType]; ok {
+		return v, true
+	}
+	v, ok := goTypeNames[goType]
+	return v, ok
+}
+
 func mapTypes(mt LT) (string, string) {
 	// "Map K V" with single-token K
 	parts := strings.SplitN(strings.TrimPrefix(mt, "Map "), " ", 2)
@@ -380,6 +392,27 @@ func (t *tr) binary(e *ast.BinaryExpr, en env) V {
 		op := map[token.Token]string{token.LSS: "<", token.LEQ: "≤", token.GTR: ">", token.GEQ: "≥"}[e.Op]
 		return V{"decide (" + x.L + " " + op + " " + y.L + ")", "Bool"}
 	case token.ADD, token.SUB, token.MUL:
+		if e.Op == token.ADD && (x.T == "Key" || y.T == "Key" || x.T == "String" || y.T == "String") {
+			// string concatenation building a map key out of fmt.Sprint parts and separators
+			part := func(v V) (string, bool) {
+				switch v.T {
+				case "Key":
+					return v.L, true
+				case "String":
+					return "([] : List Int)", true // a literal separator: keeps the concatenation injective, carries no data
+				case "Acc":
+					return "[(" + v.L + " : Int)]", true
+				case "Int", "Time":
+					return "[" + v.L + "]", true
+				}
+				return "", false
+			}
+			a, ok1 := part(x)
+			b, ok2 := part(y)
+			if ok1 && ok2 {
+				return V{"(" + a + " ++ " + b + ")", "Key"}
+			}
+		}
 		if x.T != y.T || !(x.T == "Int") {
 			return t.bad("%s on %s and %s", e.Op, x.T, y.T)
 		}
@@ -405,9 +438,12 @@ func (t *tr) composite(e *ast.CompositeLit, en env) V {
 		}
 		return V{"[" + strings.Join(parts, ", ") + "]", "List " + elT}
 	}
+	if st, ok := e.Type.(*ast.StructType); ok && len(e.Elts) == 0 && (st.Fields == nil || len(st.Fields.List) == 0) {
+		return V{"()", "Unit"}
+	}
 	if mt, ok := e.Type.(*ast.MapType); ok && len(e.Elts) == 0 {
-		kt, ok1 := goTypeNames[t.w.render(mt.Key)]
-		vt, ok2 := goTypeNames[t.w.render(mt.Value)]
+		kt, ok1 := t.typeName(t.w.render(mt.Key))
+		vt, ok2 := t.typeName(t.w.render(mt.Value))
 		if !ok1 || !ok2 {
 			return t.bad("map literal %s", t.w.render(e.Type))
 		}
@@ -444,9 +480,21 @@ func (t *tr) composite(e *ast.CompositeLit, en env) V {
 	return V{"({ " + strings.Join(parts, ", ") + " } : " + c.T + ")", c.T}
 }
 
+// calleeKey renders the callee of a call with the receiver written `k`, as in the call tables
+func (t *tr) calleeKey(fun ast.Expr) string {
+	c := t.w.render(fun)
+	if t.recvName != "" && t.recvName != "k" && strings.HasPrefix(c, t.recvName+".") {
+		c = "k." + strings.TrimPrefix(c, t.recvName+".")
+	}
+	return c
+}
+
 func (t *tr) call(e *ast.CallExpr, en env) V {
 	// kind C: oracle / effect / ignored calls are recognised by the rendered callee
-	callee := t.w.render(e.Fun)
+	callee := t.calleeKey(e.Fun)
+	if callee == "sdk.UnwrapSDKContext" {
+		return V{"()", "SdkCtx"}
+	}
 	if cs, ok := t.u.Calls[callee]; ok {
 		if cs.Effect != "" {
 			t.pre = append(t.pre, t.recordEffect(cs.Effect, cs.Args, e, en))
@@ -492,8 +540,8 @@ func (t *tr) call(e *ast.CallExpr, en env) V {
 			return t.bad("conversion of %s", x.T)
 		case "make":
 			if mt, ok := e.Args[0].(*ast.MapType); ok {
-				kt, ok1 := goTypeNames[t.w.render(mt.Key)]
-				vt, ok2 := goTypeNames[t.w.render(mt.Value)]
+				kt, ok1 := t.typeName(t.w.render(mt.Key))
+				vt, ok2 := t.typeName(t.w.render(mt.Value))
 				if ok1 && ok2 {
 					return V{"(fun _ => none)", "Map " + kt + " " + vt}
 				}
@@ -664,6 +712,8 @@ func leanType(t LT) string {
 	switch {
 	case t == "Coins":
 		return "(List Coin)"
+	case t == "Key":
+		return "(List Int)"
 	case t == "Bal":
 		return "(Denom → Int)"
 	case t == "BankFn":
@@ -691,7 +741,7 @@ func leanType(t LT) string {
 
 func leanTypeAtom(t LT) string {
 	s := leanType(t)
-	if strings.Contains(s, " ") && !strings.HasPrefix(s, "(") {
+	if strings.Contains(s, " ") && !(strings.HasPrefix(s, "(") && strings.HasSuffix(s, ")") && balanced(s[1:len(s)-1])) {
 		return "(" + s + ")"
 	}
 	return s
@@ -829,7 +879,12 @@ func (t *tr) stmts(list []ast.Stmt, en env, k cont) string {
 		if !ok {
 			return t.failf("expression statement %T", s.X)
 		}
-		callee := t.w.render(call.Fun)
+		callee := t.calleeKey(call.Fun)
+		for _, pre := range ignoredPrefixes {
+			if strings.HasPrefix(callee, pre) || strings.Contains(callee, ".Logger().") {
+				return next(en)
+			}
+		}
 		if callee == "sort.Strings" && len(call.Args) == 1 {
 			if id, ok := call.Args[0].(*ast.Ident); ok {
 				if v, ok := en.m[id.Name]; ok && v.t == "List Acc" {
@@ -1179,7 +1234,16 @@ func (t *tr) assign0(s *ast.AssignStmt, en env) (string, env) {
 	}
 	out := ""
 	for i := range s.Lhs {
+		before, npre := t.fail, len(t.pre)
 		v := t.expr(s.Rhs[i], en)
+		if id, isId := s.Lhs[i].(*ast.Ident); isId && before == "" && t.fail != "" && s.Tok == token.DEFINE && npre == len(t.pre) {
+			// a value the translator cannot express (an event, a log field, …): the variable is
+			// POISONED — harmless as long as nothing that is translated uses it
+			t.notes = append(t.notes, "variable "+id.Name+" is not translatable ("+t.fail+"); it is only allowed in ignored calls")
+			t.fail = ""
+			en.m[id.Name] = evar{"POISON_" + id.Name, "Poison", en.depth}
+			continue
+		}
 		switch l := s.Lhs[i].(type) {
 		case *ast.Ident:
 			var n string
@@ -1454,7 +1518,10 @@ func (t *tr) rangeLoop(s *ast.RangeStmt, en env, next cont) string {
 	// oracle values are reached through the call table, not through identifiers
 	ast.Inspect(s.Body, func(n ast.Node) bool {
 		if ce, ok := n.(*ast.CallExpr); ok {
-			if cs, ok := t.u.Calls[t.w.render(ce.Fun)]; ok {
+			if se, ok := ce.Fun.(*ast.SelectorExpr); ok && se.Sel.Name == "BlockTime" {
+				fi["now__"] = true // `….BlockTime()` is the oracle parameter now__ (methods table)
+			}
+			if cs, ok := t.u.Calls[t.calleeKey(ce.Fun)]; ok {
 				for _, p := range t.u.Params {
 					if p.Oracle && strings.Contains(cs.Value.L, p.Go) {
 						fi[p.Go] = true
@@ -1905,8 +1972,10 @@ func (t *tr) translate(fd funcDecl) string {
 			continue
 		}
 		if i < len(goParams) {
-			if p.Go != goParams[i] {
-				t.failf("parameter %d is called %s in the source, %s in the unit table", i, goParams[i], p.Go)
+			// the unit table gives the Lean type of each parameter BY POSITION; the name is the
+			// source's (a renamed parameter is a harmless change)
+			if i == 0 && fn.Recv != nil {
+				t.recvName = goParams[i]
 			}
 			bind(goParams[i], p)
 		}
@@ -1983,10 +2052,11 @@ var groupDeps = map[string][]string{
 	"Settle":   {"Pure"},
 	"Match":    {"Pure"},
 	"Payout":   {"Pure"},
+	"Genesis":  {"Pure", "Msgs"},
 	"Server":   {"Pure", "Msgs", "Bids", "Auctions"},
 }
 
-var groupOrder = []string{"Pure", "Msgs", "Bids", "Auctions", "Settle", "Match", "Payout", "Server"}
+var groupOrder = []string{"Pure", "Msgs", "Bids", "Auctions", "Settle", "Match", "Payout", "Server", "Genesis"}
 
 // translateUnits renders Generated/Code/<Group>.lean, one file per group of units.
 func (w *World) translateUnits() map[string]string {
